@@ -58,6 +58,12 @@ func init() {
 			"'legacy LZW encoding' = MSB-first, litWidth 8, 9..12-bit codes, clear only on dictionary overflow, EOF code, no leading clear (format of Go's compress/lzw before the leading clear code was introduced)",
 		},
 		// single-goroutine differential check: keep the GC from fanning out over all cores
+		TimeoutSec: func(t string) int {
+			if t == ev.Thorough {
+				return 5400
+			}
+			return 900
+		},
 		Env: func(string, int) []string { return []string{"GOMAXPROCS=2", "GOGC=400"} },
 		Run: run,
 	})
